@@ -12,7 +12,7 @@ ROOT = os.path.dirname(os.path.dirname(os.path.abspath(__file__)))
 REPO = os.environ.get('VERIF_REPO', '/repo')
 
 
-def run(props, timeout=420, only=None):
+def run(props, timeout=180, only=None):
     files = []
     for p in props:
         files += sorted(glob.glob(os.path.join(ROOT, 'witness', p, '*.rs')))
@@ -44,22 +44,38 @@ def run(props, timeout=420, only=None):
         import signal
         pr = subprocess.Popen(['cargo', 'test', '--offline', '--lib', 'verif_w_', '--', '--test-threads', '8'], cwd=w, env=env,
                               stdout=subprocess.PIPE, stderr=subprocess.STDOUT, text=True, start_new_session=True)
+        hung = []
         try:
             out, _ = pr.communicate(timeout=timeout)
         except subprocess.TimeoutExpired:
+            # something hangs: every test that has not reported by now is a scenario that does not finish (they carry their own
+            # watchdogs; what is left are calls on the real code that never return).  Which ones: the test list minus the finished ones.
             os.killpg(pr.pid, signal.SIGKILL)
-            pr.communicate()
-            raise
+            out, _ = pr.communicate()
+            out = out or ''
+            try:
+                ls = subprocess.run(['cargo', 'test', '--offline', '--lib', 'verif_w_', '--', '--list'], cwd=w, env=env, capture_output=True, text=True, timeout=300)
+                names = re.findall(r'^(\S+): test$', ls.stdout, re.M)
+            except Exception:
+                names = []
+            finished = set(n for n, _ in re.findall(r'^test (\S+) \.\.\. (ok|FAILED)', out, re.M))
+            hung = [n for n in names if n not in finished] or ['(unknown scenario)']
         finally:
             try:
                 os.killpg(pr.pid, signal.SIGKILL)
             except ProcessLookupError:
                 pass
         tests = re.findall(r'^test (\S+) \.\.\. (ok|FAILED)', out, re.M)
-        if not tests:
+        for name in hung:
+            mod = next((m for m in modmap if ('::' + m + '::') in ('::' + name)), None)
+            res['failed'].append({'test': name + ' (did not finish)', 'scenario': modmap.get(mod),
+                                  'output': 'the scenario did not finish within %d s: some call on the real code never returns' % timeout,
+                                  'cmd': 'tool/rundemo.sh %s' % modmap.get(mod)})
+        res['ran'] += len(hung)
+        if not tests and not hung:
             res['inconclusive'] = 'scenarios did not build or run: ' + ' | '.join([l for l in out.split('\n') if l.startswith('error')][:3])
             return res
-        res['ran'] = len(tests)
+        res['ran'] += len(tests)
         for name, st in tests:
             if st == 'ok':
                 res['passed'] += 1
@@ -68,21 +84,6 @@ def run(props, timeout=420, only=None):
                 mm = re.search(r"---- %s stdout ----\n(.*?)(?=\n---- |\nfailures:)" % re.escape(name), out, re.S)
                 res['failed'].append({'test': name, 'scenario': modmap.get(mod), 'output': (mm.group(1) if mm else '')[:1500],
                                       'cmd': 'tool/demo.sh %s' % modmap.get(mod)})
-    except subprocess.TimeoutExpired:
-        # something hangs: find out which scenario (each file on its own, shorter leash); a scenario that does not finish is a failing one
-        # (the scenarios carry their own watchdogs; what is left are calls that never return)
-        if len(files) > 1 and not os.environ.get('VERIF_WITNESS_NO_SPLIT'):
-            for f in files:
-                rel = os.path.relpath(f, ROOT)
-                sub = run(props, timeout=min(timeout, 240), only=[rel])
-                res['ran'] += sub.get('ran', 0)
-                res['passed'] += sub.get('passed', 0)
-                res['failed'] += sub.get('failed', [])
-        else:
-            rel = os.path.relpath(files[0], ROOT) if files else '?'
-            res['failed'].append({'test': rel + ' (did not finish)', 'scenario': rel,
-                                  'output': 'the scenario did not finish within %d s: some call on the real code never returns' % timeout,
-                                  'cmd': 'tool/rundemo.sh %s' % rel})
     finally:
         shutil.rmtree(w, ignore_errors=True)
         res['wall_s'] = round(time.time() - t0, 1)
